@@ -10,7 +10,8 @@ TRUSTED = [
     "memcpy packing of padded PODs; HAVE_DUNE branches; "
     "pointer layer: the addresses make_shared returns are a parameter (assumed injective = distinct live objects), a buffer whose pointee "
     "contains its own address (PACK cannot produce it), variant/set of pointer-holding types and two static types at one address are outside the model; "
-    "that the member types of the real classes are instances of the modelled shapes (ptr_member, map_member, Well: by inspection); "
+    "that the translator's pointer-shape code of a member type (ptr_shape) is right (pointer_members_modelled is a kernel check over it); "
+    "recursive classes (UDQASTNode) are instances of the descriptor type only by unrolling; "
     "that operator== and the public queries depend only on the listed members",
     "knownUnserialized carries two reproduced defects of the unchanged tree (slave_mode, m_restart_network_pressures): their probes only count until the entries leave the list",
 ]
